@@ -28,7 +28,7 @@ def case_term(c):
     return "(%s, %s, %s, %s, %s, %s)" % ("true" if c["host"] == "core" else "false", "true" if c.get("drained") else "false",
                                          c["prog"], c["handlers"], c["acts"], c["impl"])
 
-LEGACY_FN = {"verdicts_C01": "verdicts_legacy_C01", "verdicts_C03": "verdicts_legacy_C03"}
+LEGACY_FN = {"verdicts_C01": "verdicts_legacy_C01", "verdicts_C01R": "verdicts_legacy_C01", "verdicts_C03": "verdicts_legacy_C03"}
 def eval_cases(run, prop, cases, fn):
     """Command-API cases (direct / core hosts) go through `fn`; cases of the legacy capability API host go
     through the matching legacy verdict function (model = Rt/Legacy.v)."""
@@ -37,7 +37,7 @@ def eval_cases(run, prop, cases, fn):
     nsh = max(16, (len(cases) + 2499) // 2500)      # at most ~2500 cases per coqc process (memory)
     shards = [s for s in (cases[i::nsh] for i in range(nsh)) if s]
     texts = [HEADER + "Definition cs : list rtcase := [\n" + ";\n".join(case_term(c) for c in sh) + "].\nEval vm_compute in (%s cs).\n" % fn for sh in shards]
-    lfn = LEGACY_FN.get(fn, "verdicts_legacy_any") if fn != "fragment_flags" else None
+    lfn = LEGACY_FN.get(fn, "verdicts_legacy_any") if fn not in ("fragment_flags", "core_fragment_flags") else None
     lshards = [s for s in (legacy[i::4] for i in range(4)) if s] if lfn else []
     texts += [HEADER + "Definition cs : list lcase := [\n" + ";\n".join("(%s, %s, %s)" % (c["handlers"], c["acts"], c["impl"]) for c in sh) + "].\nEval vm_compute in (%s cs).\n" % lfn for sh in lshards]
     res = C.run_case_files(prop, texts)
@@ -46,7 +46,7 @@ def eval_cases(run, prop, cases, fn):
         if not ok or len(vals) != 1 or len(vals[0]) != len(sh):
             run.oblige("case-evaluation shard (%s)" % prop, False, raw[-1200:]); continue
         out += list(zip(sh, vals[0]))
-    if fn == "fragment_flags":
+    if fn in ("fragment_flags", "core_fragment_flags"):
         out += [(c, 0) for c in legacy]
     return out
 
@@ -95,11 +95,13 @@ def check_generic(run, prop, fn, only_host=None, replay=None):
     run.extra["distribution"] = {"hosts": dict(hosts), "size_buckets": {str(k): v for k, v in sorted(sizes.items())},
                                  "constructors": dict(hist), "actions": dict(ahist)}
     run.assumptions += ["Rust async lowering, futures 0.3 (mpsc unbounded, AtomicWaker, forward), crossbeam-channel, slab and Arc counts are modelled by hand (coq/Rt/Rt.v) and tied by correspondence only",
-                        "select!/join! inside one task and the legacy capability API are not in the task language yet",
+                        "in the task language: join!/select_biased! of two requests, legacy capability requests awaited inside command tasks (alone and joined with a context request); a separate host runs apps written against the legacy capability API only (coq/Rt/Legacy.v)",
                         "user futures honour the Future/Waker contract; a CommandContext is used only inside its own command's subtree"]
     run.trusted += ["hand-written model coq/Rt/{Lang,Rt,Host}.v", "harness/src/bin/rt_run.rs (interpreter building real Commands through the public API, generator, schedule chooser)", "lib/common.py parser of coqc output"]
 
-def check_C01(run, replay=None): check_generic(run, "C01", "verdicts_C01", replay=replay)
+def check_C01(run, replay=None):
+    check_generic(run, "C01", "verdicts_C01R", replay=replay)
+    run.assumptions += ["under a Core, cancellation-free apps are also compared call by call with the reference semantics coq/Rt/RefCore.v (RC_ok: the effects a call returns and the events applied are exactly the reference's, as multisets)"]
 def check_C03(run, replay=None): check_generic(run, "C03", "verdicts_C03", replay=replay)
 def check_C06(run, replay=None): check_generic(run, "C06", "verdicts_C06", replay=replay)
 def check_C07(run, replay=None): check_generic(run, "C07", "verdicts_C07", replay=replay)
@@ -158,14 +160,48 @@ def check_C05(run, replay=None):
     run.trusted += ["hand-written model coq/Rt/{Lang,Rt,Host}.v", "harness/src/bin/rt_run.rs hosts mode"]
 
 def check_C04(run, replay=None):
-    check_generic(run, "C04", "verdicts_C04", replay=replay)
+    check_generic(run, "C04", "verdicts_C04R", replay=replay)
     # how many cases were inside the abort-free fragment on which the reference semantics speaks
     try:
         cases = gen_cases(run, 3000 if run.tier == "quick" else 60000)
         fr = eval_cases(run, "C04", cases, "fragment_flags")
         run.extra["in_reference_fragment"] = sum(v for _, v in fr)
+        fk = collections.Counter(v for _, v in eval_cases(run, "C04", cases, "core_fragment_flags"))
+        run.extra["in_core_reference_fragment"] = {"compared": fk.get(2, 0), "ambiguous_request_names": fk.get(1, 0), "outside": fk.get(0, 0)}
         run.obligations = [o for o in run.obligations if not o[0].startswith("harness-build") or o[1]][:]  # keep list as is
     except Exception as ex:
         run.extra["in_reference_fragment"] = "not measured: %s" % ex
     run.assumptions += ["the reference semantics covers the abort-free fragment (no AbortHandle / JoinHandle::abort); cancellation is C06's",
                         "outputs within one step are compared as multisets; per-strand event order is compared only through the runtime model"]
+
+
+def rc_stage(run, prop, count, replay_cases=None):
+    """Apps under a real Core (command API, legacy capability requests mixed in) against the reference
+    semantics coq/Rt/RefCore.v and against the runtime model; used by C02 beside its own engine."""
+    ok, log, bins = C.harness_build(["rt_run"], release=True)
+    run.oblige("harness-build rt_run (release) from /repo working tree", ok, log[-1500:])
+    if not ok: return
+    rc, out = C.sh("timeout 900 %s %d %d '' core" % (bins["rt_run"], run.seed, count), timeout=1000)
+    run.oblige("harness-run rt_run core", rc == 0, out[-800:])
+    cases = [json.loads(l) for l in out.splitlines() if l.startswith("{")]
+    if replay_cases:
+        cases = [dict(c, size=c.get("size", 4)) for c in replay_cases]
+    res = eval_cases(run, prop, cases, "verdicts_RC")
+    v1 = [c for c, v in res if v == 1]; v2 = [c for c, v in res if v == 2]; v3 = [c for c, v in res if v == 3]
+    key = lambda c: c["size"] + len(c["acts"])
+    v1.sort(key=key); v2.sort(key=key)
+    slim = lambda c: {k: c.get(k) for k in ("idx", "seed", "host", "prog", "handlers", "acts", "impl")}
+    fk = collections.Counter(v for _, v in eval_cases(run, prop, cases, "core_fragment_flags"))
+    for c, v in res:
+        run.note_case((c["handlers"], c["acts"]), nontrivial=nontrivial(c)); run.cov["traces_validated_against_impl"] += 1
+    run.oblige("RC_ok: every call of the implementation under a Core returns the reference semantics' effects and applies its events (%d apps x histories, %d inside the cancellation-free fragment)" % (len(res), fk.get(2, 0)),
+               not v2 and len(res) == len(cases), json.dumps([slim(c) for c in v2[:3]])[:4000])
+    run.oblige("correspondence: runtime model trace = implementation trace under a Core on %d cases" % len(res), not v1 and not v3, json.dumps([slim(c) for c in (v1 + v3)[:3]])[:4000])
+    if v2:
+        run.violation("RC_ok", {"property": prop, "what": "under a Core the implementation's calls differ from the reference semantics (coq/Rt/RefCore.v): a value did not reach the continuation of the task that asked, or an effect/event was lost, duplicated or changed",
+                                "cases": [slim(c) for c in v2[:10]], "how_to_replay": "harness/src/bin/rt_run.rs <seed> <count> <idx> core"})
+    elif v1 or v3:
+        run.violation("correspondence_rt", {"property": prop, "what": "runtime model and implementation traces differ under a Core; the reference-semantics predicate still holds on every implementation trace seen",
+                                            "broken": "correspondence Rt.Host.under_core vs crux_core", "cases": [slim(c) for c in (v1 + v3)[:10]]}, no_input=True)
+    run.extra["rt_core_stage"] = {"cases": len(res), "compared_with_reference": fk.get(2, 0), "ambiguous_request_names": fk.get(1, 0), "outside_fragment": fk.get(0, 0)}
+    run.trusted += ["hand-written reference semantics coq/Rt/{Ref,RefCore}.v and runtime model coq/Rt/{Lang,Rt,Host}.v", "harness/src/bin/rt_run.rs core mode"]
